@@ -36,7 +36,7 @@ def main():
     a = ap.parse_args()
     todo = []
     for d in sorted(os.listdir(os.path.join(VERIF, 'seeded'))):
-        m = re.match(r'^(C\d\d)-mut\d+$', d)
+        m = re.match(r'^(C\d\d)-(?:w\d)?mut\d+$', d)
         if m and not (a.only and m.group(1) not in a.only.split(',')):
             todo.append((d, m.group(1)))
     missed = 0
